@@ -332,3 +332,109 @@ def closed_extent(P, rep, rule="G2.extent"):
                 rep.violation(rule, "%s: polygon test arguments are %s" % (fname, norm.render(P, poly)[:120] if poly else "missing"), F.nloc(poly) if poly else F.loc, F.qn, "",
                               "the footprint test does not compare the feature's own polygon with the point's surface position", key="%s|%s|poly" % (rule, fname),
                               witness="spherical world, point away from the prime meridian")
+
+
+# ------------------------------------------------------------------------------------------------
+def ridge_alias_twins(P, rep, rule="ALIAS.twins"):
+    """calculate_ridge_distance_and_spreading treats the point and its longitude alias by two copies of one block"""
+    from . import sib
+    rep.rule(rule, "in calculate_ridge_distance_and_spreading the closest-point block for the longitude alias (Pb2, c2, *_pt2) is the block for "
+                   "the point itself (Pb1, c1, *_pt1) with 1 -> 2 substituted; the alias point is built as in the other alias wrappers; the "
+                   "values of the nearer of the two are kept together (distance, spreading velocity, subducting velocity of the same point)")
+    F = P.func("WorldBuilder::Utilities::calculate_ridge_distance_and_spreading")
+    chains = []
+    for x in F.walk():
+        if x.get("k") == "IfStmt" and not x.get("m"):
+            par = F.parent.get(x["i"])
+            if par is not None and par.get("k") == "IfStmt":
+                continue
+            c = norm.render(P, x["c"][0], nocast=True).replace(" ", "")
+            m = re.match(r"^\(c([12])<=0\)$", c)
+            if m:
+                chains.append((int(m.group(1)), x))
+    if sorted(k for k, _ in chains) != [1, 2]:
+        rep.unknown(rule, "closest-point chains `if (c1 <= 0)` / `if (c2 <= 0)` not found")
+        return
+    forms = {}
+    for k, x in chains:
+        C = sib.Canon(P, F, alias_params=False, alias_locals=False)
+        lines = []
+        C.s(x, 0, lines)
+        sub = lambda l, k=k: re.sub(r"_pt%d\b" % k, "_ptK", re.sub(r"\bc%d\b" % k, "cK", re.sub(r"\bPb%d\b" % k, "PbK", l)))
+        forms[k] = [sub(l) for l in lines]
+    if forms[1] == forms[2]:
+        rep.ok(rule, "alias block == point block under 1 -> 2 (%d lines)" % len(forms[1]), F.nloc(chains[0][1]), F.qn)
+    else:
+        rem, add = sib.diff_lines(forms[1], forms[2])
+        node = [x for k, x in chains if k == 2][0]
+        rep.violation(rule, "the alias block differs from the point block", F.nloc(node), F.qn,
+                      "- " + " | ".join(r.strip() for r in rem[:3]) + "  + " + " | ".join(a.strip() for a in add[:3]),
+                      "a point described with longitude L and with L+-360 gets different ages/velocities", key=rule + "|twin",
+                      witness="ridge near the 180 meridian, point on the other side of it")
+    # alias point construction
+    sh = [x for x in F.walk() if x.get("k") == "CompoundAssignOperator" and x.get("op") == "+=" and "other_check_point" in norm.render(P, x["c"][0])]
+    good = False
+    if len(sh) == 1:
+        rhs = sc(sh[0]["c"][1])
+        if rhs.get("k") == "ConditionalOperator":
+            c, a, b = [sc(z) for z in rhs["c"]]
+            sym = norm.Sym(P, F, inline_locals=False, hook=pi_hook(P))
+            good = norm.render(P, c, nocast=True).replace(" ", "") == "(check_point[0]<0)" and eq(sym(a), TWO_PI) and eq(sym(b), -TWO_PI)
+        g = astq.enclosing(F, sh[0], ("IfStmt",))
+        good = good and g is not None and "spherical" in norm.render(P, g["c"][0])
+    if good:
+        rep.ok(rule, "other_check_point[0] = check_point[0] + (check_point[0] < 0 ? 2pi : -2pi) in spherical worlds", F.nloc(sh[0]), F.qn)
+    else:
+        rep.violation(rule, "alias check point construction", F.nloc(sh[0]) if sh else F.loc, F.qn, norm.render(P, sh[0])[:120] if sh else "", "alias is not the point shifted by 2*pi towards the other sign",
+                      key=rule + "|alias-point", witness="point with negative longitude near the date line")
+    # selection keeps the triple together
+    sel = [x for x in F.walk() if x.get("k") == "IfStmt" and norm.render(P, x["c"][0], nocast=True).replace(" ", "") in ("(compare_distance2<compare_distance1)",)]
+    okm = False
+    if len(sel) == 1:
+        asg = {norm.render(P, y["c"][0]): norm.render(P, y["c"][1]) for y in F.walk(sel[0]["c"][1]) if y.get("k") == "BinaryOperator" and y.get("op") == "="}
+        okm = asg == {"compare_distance": "compare_distance2", "spreading_velocity_at_ridge_pt": "spreading_velocity_at_ridge_pt2",
+                      "subducting_velocity_at_trench_pt": "subducting_velocity_at_trench_pt2"}
+    if okm:
+        rep.ok(rule, "the nearer of point/alias supplies distance, spreading and subducting velocity together", F.nloc(sel[0]), F.qn)
+    else:
+        rep.violation(rule, "selection between point and alias", F.nloc(sel[0]) if sel else F.loc, F.qn, "", "distance and velocities may come from different candidates",
+                      key=rule + "|select", witness="ridge near the date line")
+    # result vector order
+    pushes = [norm.render(P, astq.member_call(P, x, "push_back")[2][0], nocast=True).replace(" ", "") for x in F.walk() if astq.member_call(P, x, "push_back") and norm.render(P, astq.member_call(P, x, "push_back")[0]) == "result"]
+    want = ["(spreading_velocity_at_ridge/seconds_in_year)", "distance_ridge", "(subducting_velocity_at_trench/seconds_in_year)", "ridge_migration_time"]
+    if pushes == want:
+        rep.ok(rule, "result = (spreading velocity, ridge distance, subducting velocity, migration time)", F.loc, F.qn)
+    else:
+        rep.violation(rule, "result vector is %s" % pushes, F.loc, F.qn, "", "consumers read fixed positions of the result", key=rule + "|result")
+
+
+ALIAS_AWARE = {
+    # functions that compare a spherical surface point with stored longitudes and therefore must try the 2*pi alias
+    "WorldBuilder::Utilities::polygon_contains_point": "wrapper",
+    "WorldBuilder::BoundingBox<2>::point_inside": "wrapper",
+    "WorldBuilder::Objects::Surface::local_value": "other_point",
+    "WorldBuilder::Utilities::calculate_ridge_distance_and_spreading": "other_check_point",
+    "WorldBuilder::Utilities::distance_point_from_curved_planes": "+-2*pi selection of the closest representation",
+}
+
+
+def alias_sites(P, rep, rule="ALIAS.sites"):
+    rep.rule(rule, "every function in the frozen list of longitude-alias-aware sites still constructs a 2*pi-shifted copy of the spherical "
+                   "point (a +/-2*pi literal applied under a spherical test)")
+    for qn, how in ALIAS_AWARE.items():
+        fs = P.funcs_named(qn)
+        if not fs:
+            raise AnalysisBroken("alias-aware site %s vanished" % qn)
+        F = fs[0]
+        sym = norm.Sym(P, F, inline_locals=False, hook=pi_hook(P))
+        found = 0
+        for x in F.walk():
+            if x.get("k") in ("BinaryOperator", "UnaryOperator") and x.get("t", "").replace("const ", "") == "double":
+                txt = norm.render(P, x, nocast=True).replace(" ", "")
+                if txt in ("(2.0*PI)", "(2*PI)", "(2.0*Consts::PI)", "-(2.0*PI)", "(-2.0*PI)", "(-2*PI)", "(2.*PI)", "(PI*2)", "(PI*2.0)"):
+                    found += 1
+        if found:
+            rep.ok(rule, "%s: %d uses of 2*pi (%s)" % (qn, found, how), F.loc, F.qn)
+        else:
+            rep.violation(rule, "%s no longer uses a 2*pi shift" % qn, F.loc, F.qn, "", "the longitude alias of a point is not considered", key="%s|%s" % (rule, qn),
+                          witness="feature straddling the 180 meridian")
